@@ -285,6 +285,13 @@ def judge_oracle(rec, out):
                 key = K_IW          # e.g. `[\ ]` rewritten to `[ ]`: an empty, hence unclosed, class in that mode
         devs.append(("valid specification rejected", key, what))
         return devs
+    # flags written in the %grmtools section are the ones in force (route from_str: LexFlags::try_from of the parsed header)
+    if rec.get("route") == "str" and rec.get("has_header") and len(hdr) > 2 and hdr[2] != "E" and "iwcase" not in rec:
+        inforce = dict(x.split(":") for x in hdr[2].split(",")) if hdr[2] != "-" else {}
+        want_f = {k: ("1" if v else "0") for k, v in rec["flags"].items()}
+        if inforce != want_f:
+            devs.append(("flags in force differ from the flags written in the %grmtools section", None,
+                         {"in_force": inforce, "written": want_f}))
     rules, states = parse_ok(sec["OK"])
     got = [(r["name"], r["pre"], r["target"]) for r in rules]
     want = [(r["name"], r["pre"], r["target"]) for r in exp["rules"]]
